@@ -35,6 +35,9 @@ const (
 	kStruct
 	kSlice
 	kBytes // []byte as a value with capacity (second part of Code.lean) -> Slice
+	// third part (code_gslice.go): a slice of any other element type as a value with
+	// capacity -> GSlice elem
+	kGSlice
 )
 
 type gtype struct {
@@ -47,7 +50,7 @@ func (t gtype) eq(u gtype) bool {
 	if t.kind != u.kind || t.name != u.name {
 		return false
 	}
-	if t.kind == kSlice {
+	if t.kind == kSlice || t.kind == kGSlice {
 		return t.elem.eq(*u.elem)
 	}
 	return true
@@ -94,6 +97,12 @@ func (t gtype) lean() string {
 		return "List " + e
 	case kBytes:
 		return "Slice"
+	case kGSlice:
+		e := t.elem.lean()
+		if strings.Contains(e, " ") {
+			e = "(" + e + ")"
+		}
+		return "GSlice " + e
 	}
 	return "?"
 }
@@ -158,6 +167,8 @@ type codegen struct {
 	outs       []fnOut
 	// second part
 	phase2        bool
+	phase3        bool // third part (implies phase2): slices of any element type as values (code_gslice.go)
+	white3Set     map[fnKey]bool
 	white2Set     map[fnKey]bool
 	structPhase   map[string]int
 	sigs          map[fnKey]*fnSig
@@ -283,6 +294,9 @@ func (c *codegen) typeOf(e ast.Expr, at ast.Node) gtype {
 			if c.phase2 && t.kind == kU8 {
 				return gtype{kind: kBytes}
 			}
+			if c.phase3 {
+				return gtype{kind: kGSlice, elem: &t}
+			}
 			return gtype{kind: kSlice, elem: &t}
 		}
 	}
@@ -296,7 +310,9 @@ func (c *codegen) needStruct(name string, at ast.Node) {
 		return
 	}
 	c.structSeen[name] = true
-	if c.phase2 {
+	if c.phase3 {
+		c.structPhase[name] = 3
+	} else if c.phase2 {
 		c.structPhase[name] = 2
 	} else {
 		c.structPhase[name] = 1
@@ -317,7 +333,7 @@ func (c *codegen) structFields(name string, at ast.Node) []sfield {
 	for _, f := range c.structs[goStruct(name)] {
 		if f.name == "" {
 			// embedded struct: a field named after its type; its fields are promoted
-			if _, ok := c.structs[f.typ]; !ok || c.structPhase[name] != 2 {
+			if _, ok := c.structs[f.typ]; !ok || c.structPhase[name] < 2 {
 				c.fail(at, "embedded field %s in struct %s", f.typ, name)
 			}
 			f.name = f.typ
@@ -353,10 +369,14 @@ func (c *codegen) hasBytesField(name string, seen map[string]bool) bool {
 
 func (c *codegen) typeOfStr(s string, in string, at ast.Node) gtype {
 	switch {
-	case s == "[]byte" && c.structPhase[in] == 2:
+	case (s == "[]byte" || s == "[]uint8") && c.structPhase[in] >= 2:
 		return gtype{kind: kBytes}
 	case strings.HasPrefix(s, "[]"):
 		t := c.typeOfStr(s[2:], in, at)
+		if c.structPhase[in] == 3 {
+			// a struct first met by the third part: its slices are values with capacity
+			return gtype{kind: kGSlice, elem: &t}
+		}
 		return gtype{kind: kSlice, elem: &t}
 	case strings.HasPrefix(s, "*") || s == "?" || s == "func" || strings.Contains(s, "."):
 		c.fail(at, "field type %s in struct %s", s, in)
@@ -415,6 +435,8 @@ func zeroValue(t gtype) string {
 		return "[]"
 	case kBytes:
 		return "Slice.nil"
+	case kGSlice:
+		return "GSlice.nil"
 	}
 	return ""
 }
@@ -438,6 +460,8 @@ var leanReserved = map[string]bool{
 	"String": true, "decide": true, "true": true, "false": true, "LZ": true,
 	// second part
 	"grow": true, "fuel": true, "Res": true, "Slice": true,
+	// third part
+	"GSlice": true, "shiftCount": true,
 }
 
 func (c *codegen) push() { c.cur.scopes = append(c.cur.scopes, map[string]*varInfo{}) }
@@ -688,6 +712,9 @@ func (c *codegen) expr(e ast.Expr, want gtype, bare bool) (string, gtype) {
 				if want.kind == kBytes {
 					return "Slice.nil", want
 				}
+				if want.kind == kGSlice {
+					return "GSlice.nil", want
+				}
 				c.fail(e, "nil of type %s", want)
 			}
 		case "true", "false":
@@ -779,6 +806,9 @@ func (c *codegen) operands(x *ast.BinaryExpr, want gtype) (string, string, gtype
 		}
 	default:
 		a, ta = c.expr(x.X, want, true)
+		if ta.kind == kUntyped && a == "" {
+			return "", "", ta // a pending shift of an untyped constant (see shift): the caller supplies the type
+		}
 		b, tb = c.expr(x.Y, ta, true)
 	}
 	if !ta.eq(tb) {
@@ -792,6 +822,9 @@ func (c *codegen) arith(x *ast.BinaryExpr, want gtype) (string, gtype) {
 		want = gtype{}
 	}
 	a, b, t := c.operands(x, want)
+	if t.kind == kUntyped && a == "" && c.phase3 {
+		return "", t
+	}
 	if !t.numeric() {
 		if t.kind == kString && x.Op == token.ADD {
 			c.fail(x, "string concatenation")
@@ -826,6 +859,14 @@ func (c *codegen) shift(x *ast.BinaryExpr, want gtype) (string, gtype) {
 	}
 	a, t := c.expr(x.X, want, false)
 	if t.kind == kUntyped {
+		if c.phase3 {
+			// Go: "if the left operand of a non-constant shift expression is an untyped constant, it
+			// is first implicitly converted to the type it would assume if the shift expression were
+			// replaced by its left operand alone" — the caller knows that type: like an untyped
+			// constant the expression is handed back untyped (nothing has been emitted yet) and the
+			// caller translates it again with the type (`n := 1 << k` ↦ int, `uint64(1 << k)` ↦ uint64)
+			return "", t
+		}
 		c.fail(x, "shift of an untyped constant by a variable count")
 	}
 	if !t.numeric() {
@@ -840,10 +881,15 @@ func (c *codegen) shift(x *ast.BinaryExpr, want gtype) (string, gtype) {
 		cnt = strconv.FormatUint(n, 10)
 	} else {
 		s, ts := c.expr(x.Y, gtype{}, false)
-		if !ts.unsigned() {
+		switch {
+		case ts.unsigned():
+			cnt = paren(s) + ".toNat"
+		case ts.kind == kInt && c.phase3:
+			// a signed count: the shift panics if it is negative (third prelude: shiftCount)
+			cnt = c.bindRes("t", "shiftCount "+paren(s), x)
+		default:
 			c.fail(x, "shift count of type %s (a negative count panics)", ts)
 		}
-		cnt = paren(s) + ".toNat"
 	}
 	if t.kind == kInt {
 		if x.Op == token.SHR {
@@ -897,7 +943,7 @@ func (c *codegen) cond(e ast.Expr) string {
 			if ordered && !t.numeric() {
 				c.fail(e, "ordering comparison on %s", t)
 			}
-			if !ordered && (t.kind == kSlice || t.kind == kBytes || t.kind == kInvalid) {
+			if !ordered && (t.kind == kSlice || t.kind == kBytes || t.kind == kGSlice || t.kind == kInvalid) {
 				c.fail(e, "equality on %s", t)
 			}
 			op := map[token.Token]string{token.EQL: "=", token.NEQ: "≠", token.LSS: "<",
